@@ -22,6 +22,26 @@ CLAIMS = {
         "note": "Not decided: false positives/negatives of the recognisers on arbitrary run-time text (e.g. literals ending in '$'), bare anchors from the empty pattern. Trusts ast, re._parser, re, /verif/sa.",
         "technique": "abstract interpretation (outcome table) + ownership rule on a field + writer/reader agreement of templates and regex constants",
     },
+    "C11": {
+        "text": "The three dual-path sites are walked over an abstract `re` layer from both cache states: same entry point (search/fullmatch/finditer), same text, instance pattern and MULTILINE|DOTALL on the uncompiled arm, results passed through (R-DUAL); flag constant and compile() flags (R-FLAGS); who-may-write rule and get_compiled_pattern semantics over both states (R-CACHE) - together a structural argument that every interleaving of compile/get_compiled_pattern/purge/matching answers identically; get_* == list(iterate_*) for all boolean arguments (R-WRAP); yield shape (R-YIELD).",
+        "note": "Not decided: the exported text compile() compiles (repr-based get_pattern()) is equivalent to the internal text used by the uncompiled arm (a string-function fact over all patterns); re's own semantics. Trusts ast, /verif/sa.",
+        "technique": "abstract interpretation over a recording model of `re` + ownership (who-may-write) rule on the cache field",
+    },
+    "C12": {
+        "text": "Complete up to re's semantics: the four iterate_*captures* generators are walked over abstract match objects covering {unnamed,named} x {text,'',None} groups with named ordinals != group numbers, for all include_empty x relative_to_match x cache states, and every yielded container is compared with the specification (group identity of positions, exact '' filter, uniform offset, shape).",
+        "note": "Uniformity of the loop bodies over groups is checked syntactically; get_* forms follow from C11 R-WRAP. Trusts ast, /verif/sa.",
+        "technique": "abstract interpretation over abstract match objects (index-kind agreement decided semantically)",
+    },
+    "C13": {
+        "text": "split_by_match / split_by_capture are walked for every order type of match and capture spans (none, ends, whole, adjacent, empty, optional groups, empty captures) and must return the tiling of the text by those spans; replace must be one re.sub with arguments bound as (instance text, repl, text, count, class flags) behind the count<0 guard.",
+        "note": "Positions are only sliced/assigned (syntactic scan), so span order types are a complete abstraction; re.sub/finditer behaviour on empty/adjacent matches is re's. Trusts ast, inspect.signature(re.sub), /verif/sa.",
+        "technique": "abstract interpretation over span order types + argument binding of the re.sub call site",
+    },
+    "C14": {
+        "text": "All 20 methods with is_path are walked with (path witness, True) and (text witness, False) for every boolean argument combination and both cache states: equal outcomes, re only sees the text, one read of the path (R-PATHSTATE); reader body opens UTF-8 and returns read() (R-READER); context window compared with text[max(s-nl,0):min(e+nr,len)] on all order types (R-WINDOW); window-size validation (R-WINARGS).",
+        "note": "The file reader is replaced by a path->text table (its body is checked structurally); decoding by open() is trusted. Trusts ast, /verif/sa.",
+        "technique": "typestate (path vs text) decided by abstract interpretation with distinguishable witnesses; interval order-type analysis of the window",
+    },
 }
 
 NOT_APPLICABLE = {
